@@ -53,8 +53,8 @@ CODEC = r'''
 def enc(v):
     if v is None or isinstance(v, (bool, int, str)):
         return v
-    if isinstance(v, list):
-        return {"l": [enc(x) for x in v]}
+    if isinstance(v, (list, tuple)):
+        return {"l": [enc(x) for x in v]}      # (a tuple constant travels as a list: the model has one sequence type)
     if isinstance(v, dict):
         return {"d": [[k, enc(x)] for k, x in v.items()]}
     return {"weird": type(v).__name__}
@@ -102,7 +102,9 @@ def mkopt(s):
 def mk(spec):
     k = spec["k"]
     if k == "const":
-        return dec(spec["v"])
+        v = dec(spec["v"])
+        # "tup": the constant is a tuple (immutable itself, its elements need not be)
+        return tuple(v) if spec.get("tup") and isinstance(v, list) else v
     if k == "opt":
         return mkopt(spec)
     if k == "ds":
@@ -173,11 +175,15 @@ def scribble(x):
         x["scribbled-key"] = 1
     elif isinstance(x, list):
         for i in range(len(x)):
-            if isinstance(x[i], (dict, list)):
+            if isinstance(x[i], (dict, list, tuple)):
                 scribble(x[i])
             else:
                 x[i] = "scribbled"
         x.append("scribbled")
+    elif isinstance(x, tuple):
+        for y in x:
+            if isinstance(y, (dict, list, tuple)):
+                scribble(y)
 
 def run(case):
     name = case["name"]
@@ -267,7 +273,7 @@ def run(case):
                 a = C(dec(case["o" + j]))
                 for n in consts:
                     v = getattr(a, n)
-                    if isinstance(v, (dict, list)):
+                    if isinstance(v, (dict, list, tuple)):
                         scribble(v)
                 c = C(dec(case["o" + j]))
                 bad = [[n, enc(getattr(c, n)), consts[n]] for n in sorted(consts) if enc(getattr(c, n)) != consts[n]]
@@ -626,7 +632,10 @@ def gen_member(rng):
             return opt(k, gen_val(rng, 1), True)
         return opt(k)
     if r < 0.75:
-        return const(gen_val(rng))
+        c = const(gen_val(rng))
+        if isinstance(c["v"], dict) and "l" in c["v"] and rng.random() < 0.4:
+            c["tup"] = True
+        return c
     args = []
     for _ in range(rng.randint(0, 3)):
         k = rng.choice(KEY_POOL)
